@@ -1481,6 +1481,24 @@ def cross_cutting(ctx, rep, prop):
                     bad += 1
                     rep.bad("X", "guarded_by", f"{f.short}: optional number `{nm_}` is tested with `is None`, not for truth", f, u,
                             f"`{U(u)[:70]}` treats `{nm_} = 0` (a legal result of {ds_[0].func.attr}) as 'nothing'")
+        # seq[:-n] with a variable n: for n == 0 this is seq[:0], the empty sequence, not 'everything' - n must be known positive there
+        cfg_f = cfg_of(f)
+        for nd_ in cfg_f.nodes:
+            for x_ in cfg_f.node_walk(nd_.id):
+                if isinstance(x_, ast.Subscript) and isinstance(x_.slice, ast.Slice) and isinstance(x_.slice.upper, ast.UnaryOp) \
+                        and isinstance(x_.slice.upper.op, ast.USub) and not isinstance(x_.slice.upper.operand, ast.Constant) and x_.slice.lower is None:
+                    opnd = x_.slice.upper.operand
+                    nn = U(opnd)
+                    at_ = dom_guard(ctx, f, nd_.id)
+                    pos = any((a[0] == "lt" and a[1] == "0" and a[2] == nn) or (a[0] == "le" and a[1] == "1" and a[2] == nn) or
+                              (a[0] == "truth" and a[1] == nn and a[2] is True) for a in at_)
+                    if not pos and isinstance(opnd, ast.BinOp) and isinstance(opnd.op, ast.Sub):
+                        # a - b > 0  is  b < a
+                        pos = any(a[0] == "lt" and a[1] == U(opnd.right) and a[2] == U(opnd.left) for a in at_)
+                    if not pos:
+                        bad += 1
+                        rep.bad("X", "guarded_by", f"{f.short}: `{U(x_)[:40]}` is taken only where `{nn}` is known to be positive", f, x_,
+                                f"for {nn} == 0 the slice `[:-{nn}]` is `[:0]` - empty - not the whole sequence: the boundary case drops everything")
         for px_, key_, call_ in consumed_before_forwarding(f):
             bad += 1
             rep.bad("X", "agreement", f"{f.short}: `{key_}` still reaches {fn_name(call_)} after it was taken out of the keyword arguments", f, px_,
